@@ -611,6 +611,19 @@ def replay_states(inputs):
         else:
             got = _calculate_atom_states(sites=sites, trajectory=diff, site_radius=radius, site_inner_fraction=f)
             f_eff = f
+            # the public route with the same radius table, its entries given in the order of the structure's labels and in the reverse order:
+            # .states / .inner_states are what the state computation gives for that table (fraction 1 / fraction f)
+            for tab in ([radius] if '' in radius else [dict(radius), dict(reversed(list(radius.items())))]):
+                arg = dict(tab) if '' not in tab else float(tab[''])
+                keys_before = list(tab)
+                pub = Transitions.from_trajectory(trajectory=traj, sites=sites, floating_specie='Li', site_radius=arg, site_inner_fraction=f)
+                exp_out = _calculate_atom_states(sites=sites, trajectory=diff, site_radius=dict(tab), site_inner_fraction=1.0)
+                exp_in = _calculate_atom_states(sites=sites, trajectory=diff, site_radius=dict(tab), site_inner_fraction=f)
+                if not np.array_equal(np.asarray(pub.states), exp_out) or not np.array_equal(np.asarray(pub.inner_states), exp_in):
+                    bad.append(f'Transitions.from_trajectory(site_radius={arg}, site_inner_fraction={f}): states / inner states differ from the state computation with that table '
+                               f'({int((np.asarray(pub.states) != exp_out).sum())} / {int((np.asarray(pub.inner_states) != exp_in).sum())} entries)')
+                if isinstance(arg, dict) and list(arg) != keys_before:
+                    bad.append('from_trajectory changed the radius table it was given')
     except Exception as e:
         return {'reproduced': True, 'detail': f'raised {type(e).__name__}: {e} (lattice {np.round(lat.matrix, 3).tolist()})'}
     pos = diff.positions
@@ -634,6 +647,35 @@ def replay_states(inputs):
     return {'reproduced': bool(bad), 'detail': f'lattice={np.round(lat.matrix, 3).tolist()} radius={radius} f={f}: ' + '; '.join(bad[:4])}
 
 
+def replay_first_only(inputs):
+    """The only atom-frame inside any sphere is (frame 0, atom 0) at the FIRST site of its group: every index the search reports is zero."""
+    import numpy as np
+    from pymatgen.core import Element, Lattice, Structure
+    from gemdat.trajectory import Trajectory
+    from gemdat.transitions import _calculate_atom_states
+    lat = Lattice.orthorhombic(9.0, 10.0, 11.0)
+    sp = np.array([[0.1, 0.1, 0.1], [0.6, 0.2, 0.3], [0.2, 0.7, 0.8]])
+    labels = ['A', 'B', 'A']
+    sites = Structure(lat, ['Li'] * 3, sp, labels=labels)
+    at = int(inputs.get('at', 0))  # the site the atom visits in frame 0 (0 = first site overall and first of group A, 1 = first and only site of group B)
+    far = np.array([0.45, 0.45, 0.55])
+    T = int(inputs.get('frames', 3))
+    coords = np.array([[sp[at] + 0.001]] + [[far]] * (T - 1))
+    traj = Trajectory(species=[Element('Li')], coords=coords, lattice=lat.matrix, time_step=1e-15)
+    radius = {'': 1.0} if not inputs.get('labelled') else ({'A': 1.0, 'B': 0.8} if inputs.get('order', 0) == 0 else {'B': 0.8, 'A': 1.0})
+    bad = []
+    for f in (1.0, 0.5):
+        try:
+            got = np.asarray(_calculate_atom_states(sites=sites, trajectory=traj, site_radius=radius, site_inner_fraction=f))
+        except Exception as e:
+            return {'reproduced': True, 'detail': f'raised {type(e).__name__}: {e}'}
+        exp = np.full((T, 1), -1)
+        exp[0, 0] = at
+        if got.shape != exp.shape or (got != exp).any():
+            bad.append(f'atom at the centre of site {at} in frame 0 only (radius table {radius}, inner fraction {f}): states {got.ravel().tolist()}, expected {exp.ravel().tolist()}')
+    return {'reproduced': bool(bad), 'detail': '; '.join(bad) or 'ok'}
+
+
 def bounded_states(tier, seed):
     import numpy as np
     n = 40 if tier == 'quick' else 800
@@ -642,6 +684,16 @@ def bounded_states(tier, seed):
                'seeded random vs explicit-image brute force; non-trivial = rotated or non-orthogonal cell; distinct by input')
     rng = np.random.default_rng(seed + 202)
     fams = ['cubic', 'orthorhombic', 'hexagonal', 'monoclinic', 'triclinic']
+    for at_ in (0, 1, 2):
+        for lab_ in (False, True):
+            for order_ in ((0, 1) if lab_ else (0,)):
+                for fr_ in (1, 3):
+                    inp = {'at': at_, 'labelled': lab_, 'order': order_, 'frames': fr_}
+                    r = st.guard(replay_first_only, inp)
+                    if r is not None:
+                        st.case(('first-only', at_, lab_, order_, fr_), nontrivial=True)
+                        if r['reproduced']:
+                            st.violation('states-first-only', r['detail'], 'verif.props.c02:replay_first_only', inp)
     for c in range(n):
         inp = {'fallback_seed': int(rng.integers(1, 10 ** 6)), 'family': fams[c % 5], 'rotate': bool(c % 2), 'inner_fraction': [1.0, 0.5, 0.1][c % 3],
                'radius': float(rng.choice([0.6, 1.0, 1.4]))}
